@@ -123,15 +123,11 @@ MUTANTS = [
         print(template, file=fh)''',
          why="a template with an unknown field is written out verbatim instead of raising WriteInputError"),
     # ---------------------------------------------------------------- C09
-    dict(id="m13_xyz_scales_coords_in_place", prop="C09", file="iodata/formats/xyz.py",
-         old='''    # Write the header
-    print(data.natom, file=f)
-    print(data.title or "Created with IOData", file=f)''',
-         new='''    # Write the header
-    print(data.natom, file=f)
-    if data.title is None:
+    dict(id="m13_xyz_fills_in_title", prop="C09", file="iodata/formats/xyz.py",
+         old='''    print(" ".join((data.title or "Created with IOData").splitlines()), file=f)''',
+         new='''    if data.title is None:
         data.title = "Created with IOData"
-    print(data.title, file=f)''',
+    print(" ".join(data.title.splitlines()), file=f)''',
          why="the XYZ writer fills in the caller's title"),
     dict(id="m13b_sdf_temporarily_converts_coords", prop="C09", file="iodata/formats/sdf.py",
          old='''    for iatom in range(data.natom):
